@@ -357,9 +357,9 @@ func definitelyNonNilError(v ssa.Value, at *ssa.BasicBlock, depth int) bool {
 	for _, g := range guardsOf(at) {
 		if b, ok := g.cond.(*ssa.BinOp); ok {
 			var other ssa.Value
-			if b.X == v {
+			if b.X == v || (globalP != nil && sameValue(globalP, b.X, v)) {
 				other = b.Y
-			} else if b.Y == v {
+			} else if b.Y == v || (globalP != nil && sameValue(globalP, b.Y, v)) {
 				other = b.X
 			} else {
 				continue
